@@ -72,7 +72,7 @@ Section Frame.
     simpl in H. eapply same_data_trans; [exact H|apply IH].
   Qed.
 
-  Lemma unlink_levels_data cnt : forall s n level, same_data s (unlink_levels dist ord c s n level cnt).
+  Lemma unlink_levels_data uord cnt : forall s n level, same_data s (unlink_levels dist ord c uord s n level cnt).
   Proof.
     induction cnt as [|k IH]; intros s n level; simpl; [apply same_data_refl|].
     eapply same_data_trans; [|apply IH]. apply fold_data1. intros s0 e. unfold unlink_one.
